@@ -19,7 +19,7 @@ PV = [
     ("datetime", [dt.datetime(2020, 1, 2, 3, 4, 5)]), ("url", ["http://x.org/a?b=1&c=2"]), ("person", ["Ünï Cödé <a@b>"]),
     ("date", [dt.date(987, 6, 5)]), ("text", ["first note", "second\nline", "third"]),
     ("string", ["a", "b b", "c", "d", "e", "f", "g", "h", "i", "j", "k", "l"]),
-    ("2-tuple", ["(1;2)", "(3;4)"]), ("3-tuple", ["(a;b;c)"]), ("int", []), (None, []), ("string", ['say "hi"', "it's", "[br]"]), ("string", ["100%", "%%d"]), ("string", ["next\x85line", "sep\u2028arator", "nb\xa0sp"]),
+    ("2-tuple", ["(1;2)", "(3;4)"]), ("3-tuple", ["(a;b;c)"]), ("int", []), (None, []), ("string", ['say "hi"', "it's", "[br]"]), ("string", ["100%", "%%d"]), ("string", ["next\x85line", "sep\u2028arator", "nb\xa0sp"]), ("string", ["astral \U0001F600 plane", "x"]), ("float", [1e-07, 1e+16, 5.0]),
 ]
 TEXTS = ["plain G-Node text", "  surrounded by space \n", "<tag> & \"quote\"", "ünï", "yes", "12", None, "50%% of 10% %s",
          "two  blanks\tand a\nline break, NEL \x85 and LS \u2028 inside"]
@@ -45,7 +45,7 @@ def mk(variant, salt=0):
         if k == "prop":
             d, v = PV[(n * 5 + variant) % len(PV)]
             return odml.Property(name=st["name"][h], dtype=d, values=list(v), unit=[None, "mV", " µm "][n % 3],
-                                 uncertainty=[None, 0, 0.5, 12][n % 4], definition=TEXTS[(n + 1) % 9], reference=TEXTS[(n + 2) % 9],
+                                 uncertainty=[None, 0, 0.5, 12, 1e-07, 1e+16][n % 6], definition=TEXTS[(n + 1) % 9], reference=TEXTS[(n + 2) % 9],
                                  dependency=[None, "other"][n % 2], dependency_value=[None, "val"][n % 2],
                                  value_origin=TEXTS[(n + 4) % 9], val_cardinality=CARDS[(n + 1) % 9])
         return None
